@@ -177,7 +177,7 @@ func runC11(c *Ctx) {
 		c11Run(c, cs, nil)
 		return
 	}
-	files, _ := filepathGlob("/verif/harness/corpus/C11/*.json")
+	files, _ := filepathGlob(verifRoot + "/harness/corpus/C11/*.json")
 	for _, f := range files {
 		var wrap struct{ Case c11Case `json:"case"` }
 		b, err := readFile(f)
